@@ -24,7 +24,7 @@ LEVEL = "exploration"
 RULE = ("scenario = one send_message call with optional cancellation token (fired at a generated instant, possibly before the call) "
         "and optional progress callback (may raise / await), + peer traffic incl. floods; non-trivial = the token fired while the request "
         "was pending, or a matching progress notification was delivered, or a flood ran during the request")
-PROBES = ["cancel_while_pending", "cancel_before_call", "response_wins_in_cancel_window", "deadline_in_cancel_window",
+PROBES = ["params_carried_a_stale_progress_token", "cancel_while_pending", "cancel_before_call", "response_wins_in_cancel_window", "deadline_in_cancel_window",
           "cancel_exactly_on_poll_edge", "flood_during_request", "callback_raised", "callback_slept", "progress_matching_delivered",
           "progress_foreign_delivered", "cancel_after_completion"]
 TIERS = {"quick": {"runs": 25000, "wall": 45.0}, "thorough": {"runs": 1500000, "wall": 560.0}}
@@ -90,7 +90,7 @@ def generate(rng: random.Random, tier: str) -> dict:
     cb = {"raise_at": sorted(rng.sample(range(0, 6), rng.choice([0, 0, 1, 2]))), "sleep": rng.choice([0, 0, 0, 0, 5, 300])} if use_progress else None
     return {"v": 1, "timeout": timeout, "t0": t0, "uuid_seed": rng.getrandbits(40),
             "mid": rng.choice([None, None, "req-1", "77"]), "mode": rng.choice(["parse_message", "model_validate"]),
-            "params": rng.choice([None, {}, {"a": 1}, {"_meta": {"keep": 1}, "b": 2}]),
+            "params": rng.choice([None, {}, {"a": 1}, {"_meta": {"keep": 1}, "b": 2}, {"_meta": {"progressToken": "stale-token-from-earlier-attempt"}, "c": 3}]),
             "use_token": use_token, "cancel": cancel, "use_progress": use_progress, "cb": cb, "flood": flood, "events": events}
 
 
@@ -177,7 +177,12 @@ def execute(scn: dict) -> dict:
                     p = {}
                 tk = ev["token"]
                 if tk == "right":
-                    p["progressToken"] = ptoken
+                    wire = None
+                    for (_e, _t, _tn, item) in ws.items:
+                        d_ = dump(item)
+                        if isinstance(d_, dict) and d_.get("method") == "tools/call":
+                            wire = ((d_.get("params") or {}).get("_meta") or {}).get("progressToken")
+                    p["progressToken"] = wire if wire is not None else ptoken
                 elif tk == "foreign":
                     p["progressToken"] = "foreign-" + m
                 elif tk == "int":
@@ -388,10 +393,12 @@ def execute(scn: dict) -> dict:
         exp = copy.deepcopy(scn["params"])
         if use_progress:
             exp = exp if exp is not None else {}
-            exp.setdefault("_meta", {})["progressToken"] = ptoken
+            exp.setdefault("_meta", {})["progressToken"] = ptoken  # a fresh token per request, also when the dict carried an old one
         if w.get("id") != rid or (exp is None and "params" in w) or (exp is not None and w.get("params") != exp):
             V("write-content", "request", f"request {w!r:.200} != expected id={rid!r} params={exp!r}")
 
+    if use_progress and isinstance(scn["params"], dict) and "progressToken" in (scn["params"].get("_meta") or {}):
+        probe("params_carried_a_stale_progress_token")
     # 3. progress callback log
     if use_progress:
         slow = bool(scn["cb"]["sleep"])
